@@ -205,7 +205,8 @@ func hevcSliceClasses(c *hevcSliceCase, nal []byte, d *nalgen.HEVCSliceDerived) 
 // hevcGenSliceCase draws the parameter sets (2..3 SPS, 2..4 PPS, ids crossing) and the slice.
 func hevcGenSliceCase(rt *rapid.T) hevcSliceCase {
 	var c hevcSliceCase
-	c.SPS, c.PPS, c.Slice, _, _ = esgen.HEVCGenSliceSet(rt)
+	// PBBias: P and B about as often as I (the plain generator, which C16 uses, ends 68 % of the slices as I)
+	c.SPS, c.PPS, c.Slice, _, _ = esgen.HEVCGenSliceSetOpt(rt, esgen.HEVCSliceOpts{PBBias: true})
 	spss := c.SPS
 	var ptrs []*nalgen.HEVCSPSTree
 	for i := range spss {
